@@ -162,6 +162,8 @@ struct MeshNodeStorage final : SlotObserver {
   // Ordinary input notifications and internal child schedules identify a
   // sparse worklist. Only those slots need dependency-rank ordering.
   SlotBitmap evaluation_candidates{};
+  // Set when a slot that was not yet a candidate of this cycle becomes one.
+  bool candidate_added{false};
   std::vector<std::pair<int, std::size_t>> evaluation_order{};
   // Min-heap of child wake-ups, fed by the nested out-of-band observer and by
   // the pull after mesh-driven child evaluation.
@@ -189,6 +191,7 @@ struct MeshNodeStorage final : SlotObserver {
       // Current-cycle notifications already identify their slot. Recording
       // them directly avoids two heap operations per child on broadcast
       // ticks while future deadlines still use the priority queue.
+      candidate_added = candidate_added || !evaluation_candidates.test(schedule.slot);
       evaluation_candidates.set(schedule.slot);
       return;
     }
@@ -509,6 +512,8 @@ void add_mesh_evaluation_slot(MeshNodeStorage &storage, std::size_t slot) {
       storage.entries.entry_at(slot) == nullptr) {
     return;
   }
+  storage.candidate_added =
+      storage.candidate_added || !storage.evaluation_candidates.test(slot);
   storage.evaluation_candidates.set(slot);
 }
 
@@ -1064,7 +1069,9 @@ bool mesh_evaluate_impl(const void *, const NodeView &view,
     // Snapshot candidate slots by rank. add_dependency can create or re-rank
     // instances mid-pass, so the next pass rematerializes this order.
     materialize_mesh_evaluation_order(storage);
+    storage.candidate_added = false;
     bool evaluated = false;
+    bool settled_any = false;
 
     for (const auto &ranked : storage.evaluation_order) {
       MeshEntry *entry = storage.entries.entry_at(ranked.second);
@@ -1116,8 +1123,26 @@ bool mesh_evaluate_impl(const void *, const NodeView &view,
       } else {
         entry->schedule_context.pulled_when = MAX_DT;
       }
+
+      // The rest of this snapshot is stale once a child has paused (ranks were
+      // just changed) or has published a result that woke a sibling which is
+      // not in the snapshot: a dependent still waiting here would run ahead of
+      // the sibling it reads. Re-rank the worklist before going on.
+      if (entry->paused) {
+        break;
+      }
+      settled_any = true;
+      static_cast<void>(drain_due_mesh_schedules(storage, evaluation_time));
+      if (storage.candidate_added) {
+        break;
+      }
     }
 
+    // Every child settles at most once per cycle, so only passes that settle
+    // nothing can repeat without bound.
+    if (settled_any) {
+      guard = 0;
+    }
     if (++guard > storage.active_count() + 64) {
       std::string detail;
       for (std::size_t slot = 0; slot < storage.instance_keys->slot_capacity();
